@@ -188,6 +188,39 @@ func (t *gfTaint) store(lhs ast.Expr, d gfSet, define bool) {
 	}
 }
 
+// literal: `result := &T{X: e, ...}` (or `result = T{...}`, `var result = ...`) assigns every keyed field of the
+// composite literal, exactly like `result.X = e` would.
+func (t *gfTaint) literal(lhs ast.Expr, rhs ast.Expr) {
+	id, ok := lhs.(*ast.Ident)
+	if !ok || id.Name != t.res {
+		return
+	}
+	for {
+		switch x := rhs.(type) {
+		case *ast.ParenExpr:
+			rhs = x.X
+			continue
+		case *ast.UnaryExpr:
+			if x.Op == token.AND {
+				rhs = x.X
+				continue
+			}
+		}
+		break
+	}
+	cl, ok := rhs.(*ast.CompositeLit)
+	if !ok {
+		return
+	}
+	for _, el := range cl.Elts {
+		if kv, ok := el.(*ast.KeyValueExpr); ok {
+			if key, ok := kv.Key.(*ast.Ident); ok {
+				t.store(&ast.SelectorExpr{X: ast.NewIdent(t.res), Sel: key}, t.deps(kv.Value), false)
+			}
+		}
+	}
+}
+
 // simple handles assignments/declarations (also as init statements) and returns the deps of their RHS.
 func (t *gfTaint) simple(s ast.Stmt) gfSet {
 	switch s := s.(type) {
@@ -202,13 +235,19 @@ func (t *gfTaint) simple(s ast.Stmt) gfSet {
 				d = gfUnion(d, t.deps(l))
 			}
 			t.store(l, d, s.Tok == token.DEFINE)
+			if len(s.Lhs) == len(s.Rhs) {
+				t.literal(l, s.Rhs[i])
+			}
 		}
 		return all
 	case *ast.DeclStmt: // var x = e
 		ast.Inspect(s, func(n ast.Node) bool {
 			if vs, ok := n.(*ast.ValueSpec); ok {
-				for _, id := range vs.Names {
+				for i, id := range vs.Names {
 					t.store(id, t.deps(vs.Values...), true)
+					if len(vs.Names) == len(vs.Values) {
+						t.literal(id, vs.Values[i])
+					}
 				}
 			}
 			return true
